@@ -31,7 +31,7 @@ type clauseSpec struct {
 	Alts    [][]exprSpec `json:"alts,omitempty"`
 	Seq     int          `json:"seq"`
 	Returns bool         `json:"returns_form"`
-	Dups    uint         `json:"repeat_mask"` // bit k set: element k of the sequence repeats the value of element k-1
+	Dups    uint         `json:"repeat_mask"`                           // bit k set: element k of the sequence repeats the value of element k-1
 	Split   int          `json:"returns_then_andreturn_from,omitempty"` // Returns form: elements from this index on are appended with AndReturn
 	// BadAfter > 0 (targets with two plain results, Return+AndReturn form): after that many elements an ill-formed row (right first
 	// value, second value of another size) is offered with AndReturn; it is refused and must leave the sequence as it was
@@ -159,8 +159,37 @@ func (t *target) returnsArg(s, k int) interface{} {
 	return r
 }
 
+// scribbled is what a caller's reused list holds after the configuration call it was passed to
+type scribbled struct{ N int }
+
+// ReusedLists counts configurations after which the caller refilled every list it had passed in
+var ReusedLists int64
+
 func (t *target) configure(b *mocker.Builder, c *caseSpec) (w *mocker.When) {
 	bm := t.base(b)
+	// every list handed to When / In / Return / Returns / AndReturn stays the caller's: in half of the cases the caller
+	// refills all of them (rows of Returns and tuples of In included) once the whole configuration is made, as a
+	// table-driven test reusing its buffers would; the stubs must keep what they were given
+	var owned [][]interface{}
+	own := func(l []interface{}) []interface{} {
+		owned = append(owned, l)
+		for _, e := range l {
+			if inner, ok := e.([]interface{}); ok {
+				owned = append(owned, inner)
+			}
+		}
+		return l
+	}
+	defer func() {
+		if (c.DefSeq+len(c.Clauses))%2 == 0 {
+			for _, l := range owned {
+				for i := range l {
+					l[i] = scribbled{i}
+				}
+			}
+			ReusedLists++
+		}
+	}()
 	if c.HasDefault {
 		if c.DefReturns {
 			var vs []interface{}
@@ -171,14 +200,14 @@ func (t *target) configure(b *mocker.Builder, c *caseSpec) (w *mocker.When) {
 			for k := 0; k < n; k++ {
 				vs = append(vs, t.returnsArg(0, vidx(c.DefDups, k)))
 			}
-			w = bm.Returns(vs...)
+			w = bm.Returns(own(vs)...)
 			for k := n; k < c.DefSeq; k++ {
-				w = w.AndReturn(t.resultArgs(0, vidx(c.DefDups, k))...)
+				w = w.AndReturn(own(t.resultArgs(0, vidx(c.DefDups, k)))...)
 			}
 		} else {
-			w = bm.Return(t.resultArgs(0, 0)...)
+			w = bm.Return(own(t.resultArgs(0, 0))...)
 			for k := 1; k < c.DefSeq; k++ {
-				w = w.AndReturn(t.resultArgs(0, vidx(c.DefDups, k))...)
+				w = w.AndReturn(own(t.resultArgs(0, vidx(c.DefDups, k)))...)
 			}
 		}
 	}
@@ -189,9 +218,9 @@ func (t *target) configure(b *mocker.Builder, c *caseSpec) (w *mocker.When) {
 				as = append(as, t.exprArg(i, e))
 			}
 			if w == nil {
-				w = bm.When(as...)
+				w = bm.When(own(as)...)
 			} else {
-				w = w.When(as...)
+				w = w.When(own(as)...)
 			}
 		} else {
 			var alts []interface{}
@@ -206,7 +235,7 @@ func (t *target) configure(b *mocker.Builder, c *caseSpec) (w *mocker.When) {
 				}
 				alts = append(alts, as)
 			}
-			w = w.In(alts...)
+			w = w.In(own(alts)...)
 		}
 		if cl.Returns {
 			var vs []interface{}
@@ -217,12 +246,12 @@ func (t *target) configure(b *mocker.Builder, c *caseSpec) (w *mocker.When) {
 			for k := 0; k < n; k++ {
 				vs = append(vs, t.returnsArg(ci+1, vidx(cl.Dups, k)))
 			}
-			w = w.Returns(vs...)
+			w = w.Returns(own(vs)...)
 			for k := n; k < cl.Seq; k++ {
-				w = w.AndReturn(t.resultArgs(ci+1, vidx(cl.Dups, k))...)
+				w = w.AndReturn(own(t.resultArgs(ci+1, vidx(cl.Dups, k)))...)
 			}
 		} else {
-			w = w.Return(t.resultArgs(ci+1, 0)...)
+			w = w.Return(own(t.resultArgs(ci+1, 0))...)
 			for k := 1; k < cl.Seq; k++ {
 				if cl.BadAfter == k && t.name == "f8" {
 					first := t.resultArgs(ci+1, vidx(cl.Dups, k))[0]
@@ -230,7 +259,7 @@ func (t *target) configure(b *mocker.Builder, c *caseSpec) (w *mocker.When) {
 						panic("an ill-formed result row (string for an int result) was accepted by AndReturn")
 					}
 				}
-				w = w.AndReturn(t.resultArgs(ci+1, vidx(cl.Dups, k))...)
+				w = w.AndReturn(own(t.resultArgs(ci+1, vidx(cl.Dups, k)))...)
 			}
 		}
 	}
@@ -258,6 +287,9 @@ func runCase(ci interface{}, s *vkit.Stats, prop string) error {
 	var w *mocker.When
 	if pv := guard(func() { w = t.configure(b, c) }); pv != nil {
 		return fmt.Errorf("%s: configuring the well-formed stub set panicked: %v", t.name, pv)
+	}
+	if (c.DefSeq+len(c.Clauses))%2 == 0 {
+		s.Class("caller-refilled-its-lists-after-configuring")
 	}
 	cursor := map[int]int{}
 	seqLen := func(stub int) int {
